@@ -160,48 +160,17 @@ gs_splices_at(size_t p)
 #define AT_LOOSE(s, i) ((s)->chr == g_L[i] && g_in_pos >= GS_POS_AFTER(i) && g_in_pos <= g_off[(i) + 1] && \
                         ((g_off[(i) + 1] - g_in_pos) & 1) == 0)
 
-/* ---------------------------------------------------------------------------------------------------------------
- * Contract of nextchar(s)  (C11 5.1.1.2p1 phase 2; C11 location accounting), over ghosts fixed by the caller:
- *   g_nc_k   number of backslash-newline pairs at the stream position on entry,
- *   g_nc_c   the byte after them (LEX_EOF at the end of the file): the next logical character.
- */
-size_t g_nc_pos0, g_nc_k, g_nc_line, g_nc_col, g_nc_len;
-int g_nc_c, g_nc_chr0;
-bool g_nc_usebuf;
-
-#define PRE_NC(X) \
-	X(s != 0 && s->file == ghost_file()) \
-	X(g_in_n <= G_IN_MAX && g_in_pos <= g_in_n) \
-	X(g_nc_pos0 == g_in_pos && g_nc_line == s->loc.line && g_nc_col == s->loc.col) \
-	X(g_nc_k == gs_splices_at(g_in_pos) && !GS_PAIR(g_in_pos + 2 * g_nc_k)) \
-	X(g_nc_c == GS_BYTE(g_in_pos + 2 * g_nc_k)) \
-	X(g_nc_usebuf == s->usebuf && g_nc_chr0 == s->chr && g_nc_len == s->buf.len) \
-	X(IMP(s->usebuf, BUF_OK(&s->buf)))
-
 /* growable buffer invariant (SCAN.buf): room for len bytes inside an allocation of cap bytes */
 #define BUF_OK(b) ((b)->len <= (b)->cap && ((b)->cap == 0 || (b)->str != 0) && (b)->cap <= ((size_t)1 << 40))
 
-#define POST_NC(X) \
-	/* phase 2: every backslash-newline pair in front of the character is deleted; the character itself is returned, \
-	   a backslash that is not followed by new-line included */ \
-	X(s->chr == g_nc_c) \
-	X(g_in_pos == (g_nc_c == LEX_EOF ? g_in_n : g_nc_pos0 + 2 * g_nc_k + 1)) \
-	/* C11: one line per new-line byte consumed (a splice is a physical line) */ \
-	X(s->loc.line == g_nc_line + g_nc_k + (g_nc_c == '\n')) \
-	/* column of the character on its physical line; 0 for new-line so that the next character gets column 1 */ \
-	X(s->loc.col == (g_nc_c == '\n' ? 0 : g_nc_k > 0 ? 1 : g_nc_col + 1)) \
-	/* the previous character is appended to the token spelling iff the spelling is being collected */ \
-	X(s->usebuf == g_nc_usebuf) \
-	X(s->buf.len == g_nc_len + (g_nc_usebuf ? 1 : 0)) \
-	X(IMP(g_nc_usebuf, s->buf.str[g_nc_len] == (unsigned char)g_nc_chr0 && BUF_OK(&s->buf))) \
-	/* at most the one look-ahead byte behind a lone backslash is pushed back */ \
-	X(g_unget_depth == (g_nc_c == '\\' && g_nc_pos0 + 2 * g_nc_k + 1 < g_in_n ? 1 : 0))
-
-/*
- * Stand-in for nextchar() in the units of its callers (replace_calls nextchar:nextchar_spec): computes the post-state
- * of POST_NC directly.  SCAN.nextchar checks, clause by clause, that the real nextchar() produces exactly this state
- * (same s->chr, stream position, line, column, buffer effect, pushback depth) for every stream it is run on there.
- * bufadd() is the real one (SCAN.buf).
+/* ---------------------------------------------------------------------------------------------------------------
+ * Stand-in for nextchar() in the units of its callers (replace_calls nextchar:nextchar_spec).  It computes the
+ * post-state that the contract of nextchar (units/scan/nextchar.c, from C11 5.1.1.2p1 phase 2 and the C11 location
+ * accounting) describes: all backslash-newline pairs at the stream position are skipped, the byte after them (or EOF)
+ * becomes s->chr, one line per new-line byte consumed, column of the character on its physical line.
+ * SCAN.nextchar runs BOTH on the same symbolic state and checks that the real nextchar() produces exactly the
+ * stand-in's state (s->chr, stream position, line, column, buffer effect, pushback depth).  bufadd() is the real one
+ * (SCAN.buf).
  */
 void
 nextchar_spec(struct scanner *s)
